@@ -147,18 +147,20 @@ func (c *Container) Remove(ws *WebService) error {
 	}
 	// build a new ServeMux and re-register all WebServices
 	newServeMux := http.NewServeMux()
-	newServices := []*WebService{}
+	oldServices := c.webServices
 	newIsRegisteredOnRoot := false
-	for _, each := range c.webServices {
+	// addHandler inspects c.webServices for existing mappings ; it must see the new collection
+	c.webServices = []*WebService{}
+	for _, each := range oldServices {
 		if each.rootPath != ws.rootPath {
 			// If not registered on root then add specific mapping
 			if !newIsRegisteredOnRoot {
 				newIsRegisteredOnRoot = c.addHandler(each, newServeMux)
 			}
-			newServices = append(newServices, each)
+			c.webServices = append(c.webServices, each)
 		}
 	}
-	c.webServices, c.ServeMux, c.isRegisteredOnRoot = newServices, newServeMux, newIsRegisteredOnRoot
+	c.ServeMux, c.isRegisteredOnRoot = newServeMux, newIsRegisteredOnRoot
 	return nil
 }
 
